@@ -365,4 +365,19 @@ def init_cases(draw, nobj=4):
         if "(*" in decl and storage == "const ":
             storage = "static "
         objs.append({"decl": decl, "init": init, "name": ident, "storage": storage, "incomplete": incomplete})
+    if draw(st.integers(0, 3)) == 0:
+        # several objects declared through one typedef of an array of unknown size: each initialiser sizes its own object
+        en = draw(st.sampled_from(["int", "char", "unsigned short", "long"]))
+        tdn = g.uid("TA")
+        g.defs.append("typedef %s %s[];" % (en, tdn))
+        et = T("scalar", en)
+        for j in range(draw(st.integers(2, 3))):
+            n = draw(st.integers(1, 5))
+            if en == "char" and draw(st.booleans()):
+                init = '"%s"' % ("xyzw"[:n])
+            else:
+                init = "{ %s }" % ", ".join(g.value(et) for _ in range(n))
+            objs.append({"decl": "%s xt%d_%d" % (tdn, len(objs), j), "init": init, "name": "xt%d_%d" % (len(objs), j),
+                         "storage": draw(st.sampled_from(["", "static "])), "incomplete": True})
+        g.labels.add("typedef-incomplete-array")
     return {"defs": g.defs, "objs": objs, "labels": sorted(g.labels)}
